@@ -5558,9 +5558,11 @@ func deserializeChanEdgePolicyRaw(r io.Reader) (*models.ChannelEdgePolicy,
 	}
 
 	// We'll try and see if there are any opaque bytes left, if not, then
-	// we'll ignore the EOF error and return the edge as is.
+	// we'll ignore the EOF error and return the edge as is. The blob may
+	// start with the 8-byte max_htlc field, which is written in front of
+	// up to MaxAllowedExtraOpaqueBytes of opaque data.
 	edge.ExtraOpaqueData, err = wire.ReadVarBytes(
-		r, 0, MaxAllowedExtraOpaqueBytes, "blob",
+		r, 0, MaxAllowedExtraOpaqueBytes+8, "blob",
 	)
 	switch {
 	case errors.Is(err, io.ErrUnexpectedEOF):
